@@ -120,6 +120,19 @@ def run(tier, seed):
             reqs2.append({"kind": "convert", "input": comp[1], "context": "Normal", "expect": comp[0]})
         items.append((base, reqs2))
         expect.append((exp, learned))
+    # a user dictionary that already holds many entries (256 and more) still learns compounds
+    kana2 = "あいうえおかきけこさすせそたちつてとなにぬねの"
+    big_base = {"std": [{"reading": "くるま", "stem": "車", "speech": {"Noun": "Common"}}], "anc": [{"reading": "しん", "stem": "新", "speech": {"Affix": "Prefix"}},
+                                                                                                     {"reading": "てき", "stem": "的", "speech": {"Affix": "Suffix"}}], "tankan": []}
+    nreg = 260 if tier == "quick" else 1100
+    regs = [{"kind": "register", "wkind": "CommonNoun", "reading": "は" + kana2[i % len(kana2)] + kana2[(i // len(kana2)) % len(kana2)] + kana2[(i // len(kana2) ** 2) % len(kana2)], "word": f"語{i}"} for i in range(nreg)]
+    d_big = {"alphabet": ALPHABET, "std": [["くるま", "車", {"Noun": "Common"}]], "anc": [["しん", "新", {"Affix": "Prefix"}], ["てき", "的", {"Affix": "Suffix"}]]}
+    rb = harness([{"op": "kkc_query", "dict": d_big, "context": "Normal", "freq": [], "input": "しんくるま", "n": 100}])[0]
+    ci_big = next((i for i, c in enumerate(rb.get("candidates", [])) if affix_shape(c["nodes"][1:-1]) == ("新車", "しんくるま")), None)
+    if ci_big is not None:
+        items.append((big_base, regs + [{"kind": "convert", "input": "しんくるま", "context": "Normal", "expect_text_at": (ci_big, "新車")}, {"kind": "confirm", "session": 0, "cid": str(ci_big)},
+                                        {"kind": "convert", "input": "しんくるま", "context": "Normal", "expect": "新車"}]))
+        expect.append(([(nreg + 1, ("新車", "しんくるま"), "新車", [])], [("新車", "しんくるま")]))
     runs = run_histories(items, threads=12)
     nontrivial = 0
     for hr, (exp, learned) in zip(runs, expect):
